@@ -98,6 +98,15 @@ func (g *Generator) makeNullableSchema(schemaProxy *base.SchemaProxy) *base.Sche
 		builtSchema.Type = append(builtSchema.Type, "null")
 	}
 
+	// An enum keyword restricts the value whatever its type: null must be listed too
+	if len(builtSchema.Enum) > 0 {
+		builtSchema.Enum = append(builtSchema.Enum, &yaml.Node{
+			Kind:  yaml.ScalarNode,
+			Tag:   "!!null",
+			Value: "null",
+		})
+	}
+
 	return base.CreateSchemaProxy(builtSchema)
 }
 
